@@ -4,7 +4,7 @@
    instantiated with the three real classes of harness/c17_procs.py:
      Add   : plain Process, inputs a (required int), b (int, default 1); one step; outputs {sum: a + b}
      Steps : WorkChain with outline (s0, s1, s2); inputs n, fail, kill (ints, defaults 0, -1, -1); step k records
-             itself in ctx.acc, raises UserError('f<k>') if fail = k, kills itself with message 'k<k>' if kill = k;
+             itself in ctx.acc, raises UserError('f<k>') if fail = k (fail = 3: the on_finished hook raises UserError('f3')), kills itself with message 'k<k>' if kill = k;
              the last step outputs {acc: ctx.acc, n: n}
      Other : subclass of Steps whose result is n + 100
    A checkpoint is observed as (state label, ctx.acc, outputs so far).  The loader tables come with the case (they are read from the
@@ -65,7 +65,8 @@ Definition outputs_of (ckpt : val) : val := match ckpt with VTup [_; _; o] => o 
 (* steps [ks] still to do; [acc] = ctx.acc so far *)
 Fixpoint steps_run (fail kill n : Z) (ks : list nat) (acc : list val) : list nat * outcome :=
   match ks with
-  | [] => ([], ODone (VDict [("acc", VList acc); ("n", VInt n)]))
+  | [] => ([], if Z.eqb fail 3 then OExn (EUser "f3")      (* on_finished raises: FINISHED was entered, the outcome is the failure *)
+               else ODone (VDict [("acc", VList acc); ("n", VInt n)]))
   | k :: rest =>
       let acc' := (acc ++ [VInt (Z.of_nat k)])%list in
       if Z.eqb fail (Z.of_nat k) then ([k], OExn (EUser ("f" ++ digit k)))
